@@ -115,7 +115,7 @@ class Objects:
     CCLikelihood object carrying the same data (so that CCLikelihood.get_pred / negloglike are the code that runs)."""
 
     def __init__(self, s):
-        self.s, self.cache, self.n, self.cc0, self.pos = s, {}, 0, None, {}
+        self.s, self.cache, self.n, self.cc0, self.pos, self.init = s, {}, 0, None, {}, {}
 
     def get(self, cls, data, fresh=False):
         key = (cls, tuple((d["y"], d["sn"], d["sd"]) for d in data))
@@ -148,6 +148,7 @@ class Objects:
         pos = {float(v + shift): i for i, v in enumerate(x)}
         out = [("", obj)]
         self.pos[id(obj)] = pos
+        self.init[id(obj)] = (cls, data, {k: np.array(getattr(obj, k), dtype=float, copy=True) for k in ("xvar", "yvar", "yerr") if hasattr(obj, k)})
         if cls == "mock":
             if self.cc0 is None:
                 with warnings.catch_warnings():
@@ -235,6 +236,51 @@ def _selftest(r, obs):
     r.add("selftest", evaluations=0, corrupted_observations_rejected=len(muts))
 
 
+def _precise(r, s, np):
+    """Very precise data (error bars 1e-9 of the value) with a model three error bars away: the documented sums of squared residuals,
+    evaluated at 40 digits from the doubles the object holds (P3), against the returned value at 1e-6.  (Outside Like.tla's exact alphabet:
+    a numerical probe of the same four formulas where residuals are small against the values.)"""
+    import mpmath as mp
+    import esr.fitting.likelihood as L
+    mp.mp.dps = 40
+    x = np.array([3.0, 1.0, 2.0])
+    y = np.array([70.123, 85.5, 102.75])
+    sg = y * 1e-9
+    pred = y * (1 + 3e-9)
+    dd = os.path.join(s, "c09_precise")
+    os.makedirs(os.path.join(dd, "mock"), exist_ok=True)
+    np.savetxt(os.path.join(dd, "mock", "CC_Hubble_7_0.1.dat"), np.transpose([x, y, sg]), fmt="%.18e")
+    np.savetxt(os.path.join(dd, "g.txt"), np.transpose([x, y, sg]), fmt="%.18e")
+    with warnings.catch_warnings():
+        warnings.simplefilter("ignore")
+        mock = L.MockLikelihood(7, 0.1, data_dir=dd)
+        gauss = targets.make_like("gauss", "g.txt", "c09p", dd, "core_maths")
+        cc = copy.copy(L.CCLikelihood())
+    cc.xvar, cc.yvar, cc.yerr, cc.inv_cov = mock.xvar, mock.yvar, mock.yerr, mock.inv_cov
+    n = 0
+    for name, obj, vals, form in (("mock", mock, pred ** 2, "mock"), ("cc", cc, pred ** 2, "mock"), ("gauss", gauss, pred, "gauss")):
+        xv = np.atleast_1d(np.asarray(obj.xvar, dtype=float))
+        lookup = {float(v): float(w) for v, w in zip(np.sort(xv), vals[np.argsort(x)])}     # model value at each abscissa, whatever order the object keeps
+        with warnings.catch_warnings(), np.errstate(all="ignore"):
+            warnings.simplefilter("ignore")
+            got = obj.negloglike([1.0], lambda xx, *a: np.array([lookup[float(v)] for v in np.atleast_1d(xx)]))
+        yo, so = np.atleast_1d(obj.yvar).astype(float), np.atleast_1d(obj.yerr).astype(float)
+        fo = np.array([lookup[float(v)] for v in xv])
+        if form == "mock":
+            want = sum((mp.sqrt(mp.mpf(float(f))) - mp.mpf(float(yy))) ** 2 / (2 * mp.mpf(float(ss)) ** 2) for f, yy, ss in zip(fo, yo, so))
+        else:
+            want = sum((mp.mpf(float(f)) - mp.mpf(float(yy))) ** 2 / (2 * mp.mpf(float(ss)) ** 2) + mp.log(2 * mp.pi) / 2 + mp.log(mp.mpf(float(ss))) for f, yy, ss in zip(fo, yo, so))
+        n += 1
+        try:
+            ok = abs(float(got) - float(want)) <= 1e-6 * max(1.0, abs(float(want)))
+        except Exception:
+            ok = False
+        if not ok:
+            r.violation("precise:%s" % name, "%s negloglike on data with error bars 1e-9 of the values and a model three error bars away returned %r; the documented sum evaluated at 40 digits is %s" % (
+                name, got, mp.nstr(want, 15)), {"class": name})
+    r.add("precise_data_probe", evaluations=n, nontrivial=n)
+
+
 def run(tier, replay=None):
     r = evidence.Run(PID, tier, "model_checking")
     s = scratch.make()
@@ -271,6 +317,27 @@ def run(tier, replay=None):
                 obs.append({"id": len(obs), "cls": c["cls"], "data": c["data"], "pred": c["pred"], "exc": c["exc"],
                             "req": c["req"], "lin": c["lin"], "obs": o, "matches": m})
                 meta.append((n, pre + name, how, arg, out, exp, w))
+    # the model function that hands its argument back (the library function 'x'): the object's own data must survive the call
+    nprobe = 0
+    for key, lst in list(objs.cache.items()):
+        for pre, obj in lst:
+            if id(obj) not in objs.init:
+                continue
+            cls, data, init = objs.init[id(obj)]
+            nprobe += 1
+            with warnings.catch_warnings(), np.errstate(all="ignore"):
+                warnings.simplefilter("ignore")
+                try:
+                    obj.negloglike([0.5], lambda x, *a: x)
+                except Exception:
+                    pass
+            changed = [k for k, v in init.items() if not np.array_equal(np.asarray(getattr(obj, k), dtype=float), v, equal_nan=True)]
+            if changed:
+                d = ",".join("(y=%d,s=%d/%d)" % (p["y"], p["sn"], p["sd"]) for p in data)
+                r.violation("data_modified:%s:%s" % (cls, "+".join(changed)), "%s%s negloglike with the model function f(x) = x (returns its argument) overwrote the object's %s on data %s: every later value of this object is computed on other data" % (
+                    pre, cls, changed, d), {"class": cls, "data": data})
+    r.add("identity_probe", evaluations=nprobe, nontrivial=nprobe)
+    _precise(r, s, np)
     failed = {}
     for k in range(0, len(obs), JUDGE_CHUNK):
         chunk = [dict(o, id=o["id"] - k) for o in obs[k:k + JUDGE_CHUNK]]
